@@ -6,6 +6,7 @@ package main
 import (
 	"encoding/base64"
 	"fmt"
+	"runtime"
 	"strconv"
 	"strings"
 
@@ -148,7 +149,15 @@ func step(w []string, _ string) string {
 			ix, _ := strconv.ParseUint(w[4], 10, 32)
 			return licenseRoundTrip(w[1], uint32(u), uint32(sg), uint32(ix))
 		case "licmut":
+			// a license string is a few dozen bytes: parsing any string must yield a license or an error
+			// without allocating out of proportion to it (a machine with less memory would not get an answer)
+			var m0, m1 runtime.MemStats
+			runtime.ReadMemStats(&m0)
 			license.Parse(string(vlib.UnHex(w[1])))
+			runtime.ReadMemStats(&m1)
+			if d := (m1.TotalAlloc - m0.TotalAlloc) >> 20; d > 64 {
+				return fmt.Sprintf("allocated-%dMB", d)
+			}
 			return "nopanic"
 		}
 		return "bad-op"
